@@ -350,11 +350,38 @@ def machine_shard(ctx, shard):
     hyp_machine(ctx, "registry-histories", RegistryMachine, n, 30 if ctx.quick else 60, shard=shard)
 
 
+def burst_check(ctx):
+    """ids of distinct nodes never collide, also when very many are handed out within one second:
+    40 000 direct creations, a 15 001-node tree, its copy and its JSON-free XML re-import"""
+    Node.store.clear()
+    made = [Node("n") for _ in range(40000)]
+    root = Node("dataset")
+    for i in range(15000):
+        root.add_child(Node("title", content=str(i)))
+    cp = root.copy()
+    imp = metapype_io.from_xml("<dataset>" + "<title>t</title>" * 15000 + "</dataset>")
+    live = made + all_nodes(root) + all_nodes(cp) + all_nodes(imp)
+    ids = [n.id for n in live]
+    ctx.evaluations += len(live)
+    ctx.engine("id-burst", nodes=len(live))
+    if len(set(ids)) != len(ids):
+        ctx.fail("id-collision:burst", {"burst": True}, f"{len(ids) - len(set(ids))} of {len(ids)} nodes created in a burst share an id with another live node")
+    elif any(Node.get_node_instance(n.id) is not n for n in live):
+        ctx.fail("created-node-not-retrievable", {"burst": True}, "a node created in a burst is not retrievable by its id")
+    Node.store.clear()
+
+
 def run(ctx):
+    burst_check(ctx)
     ctx.pmap(machine_shard, range(16))
 
 
 def replay(case):
+    if case.get("burst"):
+        from vf.runner import Ctx
+        c = Ctx(ID, "quick", 1)
+        burst_check(c)
+        return "; ".join(f["message"] for f in c.failures.values()) or None
     e = Engine()
     for op in case["history"]:
         e.apply(op)
